@@ -56,8 +56,17 @@ def build_automaton(seqs):
     return root, nodes
 
 
+W = 6
+NONE = (1 << W) - 1        # "no thread / no mutex"
+NOBRANCH = (1 << W) - 2    # automaton has no successor for the observed outcome
+
+
+def IV(n):
+    return z3.BitVecVal(n if n >= 0 else (NONE if n == -1 else NOBRANCH), W)
+
+
 class Model:
-    """Shared-state semantics + BMC unrolling."""
+    """Shared-state semantics + BMC unrolling (all numeric state is 6-bit: pure SAT problem)."""
 
     def __init__(self, nodes, n_threads, steps, rwlocks, mutex_slots=None):
         self.nodes = nodes
@@ -65,8 +74,10 @@ class Model:
         self.T = steps
         self.rwlocks = rwlocks
         self.n_mutex = mutex_slots or n_threads
-        self.solver = z3.Solver()
-        self.solver.set("timeout", 600000)
+        if len(nodes) >= NOBRANCH or n_threads >= NONE:
+            raise ValueError("automaton too large for the %d-bit encoding" % W)
+        self.solver = z3.SolverFor("QF_BV")
+        self.solver.set("timeout", 900000)
         self.states = []
         self.sched = []
         self.queries = 0
@@ -76,21 +87,21 @@ class Model:
     def init_state(self):
         s = {}
         for i in range(self.k):
-            s["pc%d" % i] = z3.IntVal(0)
-            s["mid%d" % i] = z3.IntVal(-1)       # the per-key mutex this thread holds a handle of
+            s["pc%d" % i] = IV(0)
+            s["mid%d" % i] = IV(-1)       # the per-key mutex this thread holds a handle of
             s["done_at_ok%d" % i] = z3.BoolVal(True)
         for l in self.rwlocks:
-            s["w_" + l] = z3.IntVal(-1)
-            s["r_" + l] = z3.IntVal(0)
+            s["w_" + l] = IV(-1)
+            s["r_" + l] = IV(0)
         s["member"] = z3.BoolVal(False)           # key in the `updated` set/map
         s["run_has"] = z3.BoolVal(False)          # key in the `running` map
-        s["run_mid"] = z3.IntVal(-1)
-        s["next_mid"] = z3.IntVal(0)
+        s["run_mid"] = IV(-1)
+        s["next_mid"] = IV(0)
         for m in range(self.n_mutex):
-            s["hold%d" % m] = z3.IntVal(-1)
-        s["named_hold"] = z3.IntVal(-1)           # a named (non per-key) mutex, e.g. metrics
-        s["fetch_active"] = z3.IntVal(0)
-        s["fetch_count"] = z3.IntVal(0)
+            s["hold%d" % m] = IV(-1)
+        s["named_hold"] = IV(-1)           # a named (non per-key) mutex, e.g. metrics
+        s["fetch_active"] = IV(0)
+        s["fetch_count"] = IV(0)
         s["fetch_overlap"] = z3.BoolVal(False)
         s["ret_during_fetch"] = z3.BoolVal(False)
         s["ret_before_member"] = z3.BoolVal(False)
@@ -105,7 +116,7 @@ class Model:
 
         def nxt_uncond():
             n = node.next.get(None)
-            return z3.IntVal(n.id) if n is not None else z3.IntVal(node.id)
+            return IV(n.id) if n is not None else IV(node.id)
 
         nxt = nxt_uncond()
         mid = s["mid%d" % i]
@@ -115,20 +126,20 @@ class Model:
             en = z3.BoolVal(False)
         elif prim == "rw_read":
             l = op[1]
-            en = s["w_" + l] == -1
+            en = s["w_" + l] == IV(-1)
             up["r_" + l] = s["r_" + l] + 1
         elif prim == "rw_write":
             l = op[1]
-            en = z3.And(s["w_" + l] == -1, s["r_" + l] == 0)
-            up["w_" + l] = z3.IntVal(i)
+            en = z3.And(s["w_" + l] == IV(-1), s["r_" + l] == IV(0))
+            up["w_" + l] = IV(i)
         elif prim == "rw_unlock_read":
             up["r_" + op[1]] = s["r_" + op[1]] - 1
         elif prim == "rw_unlock_write":
-            up["w_" + op[1]] = z3.IntVal(-1)
+            up["w_" + op[1]] = IV(-1)
         elif prim == "observe_member":
             t, f = node.next.get(True), node.next.get(False)
-            tid = z3.IntVal(t.id) if t is not None else z3.IntVal(-2)
-            fid = z3.IntVal(f.id) if f is not None else z3.IntVal(-2)
+            tid = IV(t.id) if t is not None else IV(-2)
+            fid = IV(f.id) if f is not None else IV(-2)
             nxt = z3.If(s["member"], tid, fid)
         elif prim == "entry_or_default":
             # get the mutex stored under the key, creating one if absent
@@ -140,26 +151,26 @@ class Model:
         elif prim == "mutex_lock":
             conds = []
             for m in range(self.n_mutex):
-                conds.append(z3.And(mid == m, s["hold%d" % m] == -1))
-                up["hold%d" % m] = z3.If(mid == m, z3.IntVal(i), s["hold%d" % m])
+                conds.append(z3.And(mid == IV(m), s["hold%d" % m] == IV(-1)))
+                up["hold%d" % m] = z3.If(mid == IV(m), IV(i), s["hold%d" % m])
             en = z3.Or(conds)
         elif prim == "mutex_unlock":
             for m in range(self.n_mutex):
-                up["hold%d" % m] = z3.If(z3.And(mid == m, s["hold%d" % m] == i), z3.IntVal(-1), s["hold%d" % m])
+                up["hold%d" % m] = z3.If(z3.And(mid == IV(m), s["hold%d" % m] == IV(i)), IV(-1), s["hold%d" % m])
         elif prim == "named_lock":
-            en = s["named_hold"] == -1
-            up["named_hold"] = z3.IntVal(i)
+            en = s["named_hold"] == IV(-1)
+            up["named_hold"] = IV(i)
         elif prim == "named_unlock":
-            up["named_hold"] = z3.IntVal(-1)
+            up["named_hold"] = IV(-1)
         elif prim == "fetch_begin":
-            up["fetch_overlap"] = z3.Or(s["fetch_overlap"], s["fetch_active"] > 0)
+            up["fetch_overlap"] = z3.Or(s["fetch_overlap"], s["fetch_active"] != IV(0))
             up["fetch_active"] = s["fetch_active"] + 1
             up["fetch_count"] = s["fetch_count"] + 1
         elif prim == "fetch_end":
             up["fetch_active"] = s["fetch_active"] - 1
         elif prim == "map_remove":
             up["run_has"] = z3.BoolVal(False)
-            up["run_mid"] = z3.IntVal(-1)
+            up["run_mid"] = IV(-1)
         elif prim == "member_insert":
             up["member"] = z3.BoolVal(True)
         else:
@@ -171,9 +182,12 @@ class Model:
         self.states = [s]
         end_ids = [n.id for n in self.nodes if n.op[0] == "end"]
         for t in range(self.T):
-            ch = z3.Int("sched_%d" % t)
+            ch = z3.BitVec("sched_%d" % t, W)
             self.sched.append(ch)
-            self.solver.add(ch >= -1, ch < self.k)
+            self.solver.add(z3.Or(ch == IV(-1), z3.ULT(ch, IV(self.k))))
+            if t > 0:
+                # idle steps only as a suffix of the schedule
+                self.solver.add(z3.Implies(self.sched[t - 1] == IV(-1), ch == IV(-1)))
             new = {}
             cases = []      # (cond, updates, next_pc, thread)
             enabled_any = []
@@ -181,24 +195,24 @@ class Model:
                 for n in self.nodes:
                     if n.op[0] == "end":
                         continue
-                    c = z3.And(ch == i, s["pc%d" % i] == n.id)
+                    c = z3.And(ch == IV(i), s["pc%d" % i] == IV(n.id))
                     en, up, nxt = self.op_semantics(n, s, i)
                     self.solver.add(z3.Implies(c, en))
                     # reaching node id -2 means the automaton has no branch for the observed outcome
-                    self.solver.add(z3.Implies(c, nxt != -2))
+                    self.solver.add(z3.Implies(c, nxt != IV(-2)))
                     up = dict(up)
                     up["pc%d" % i] = nxt
                     # "returns" bookkeeping: moving to an end node
-                    is_end = z3.Or([nxt == e for e in end_ids]) if end_ids else z3.BoolVal(False)
+                    is_end = z3.Or([nxt == IV(e) for e in end_ids]) if end_ids else z3.BoolVal(False)
                     up["ret_during_fetch"] = z3.Or(s["ret_during_fetch"],
-                                                   z3.And(is_end, s["fetch_active"] > 0))
+                                                   z3.And(is_end, s["fetch_active"] != IV(0)))
                     up["ret_before_member"] = z3.Or(s["ret_before_member"],
                                                     z3.And(is_end, z3.Not(up.get("member", s["member"]))))
                     cases.append((c, up))
             # a thread sitting at an end node cannot be scheduled
             for i in range(self.k):
                 for e in end_ids:
-                    self.solver.add(z3.Not(z3.And(ch == i, s["pc%d" % i] == e)))
+                    self.solver.add(z3.Not(z3.And(ch == IV(i), s["pc%d" % i] == IV(e))))
             for v in s:
                 expr = s[v]
                 for c, up in cases:
@@ -210,12 +224,15 @@ class Model:
             s = new
             self.states.append(s)
 
-    def check(self, bad_of_state, name):
+    def check(self, bad_of_state, name, final_only=False):
         """Is there a schedule reaching a state (at any step) where bad holds?"""
         self.queries += 1
         t0 = time.time()
         self.solver.push()
-        self.solver.add(z3.Or([bad_of_state(s) for s in self.states]))
+        if final_only:
+            self.solver.add(bad_of_state(self.states[-1]))
+        else:
+            self.solver.add(z3.Or([bad_of_state(s) for s in self.states]))
         r = self.solver.check()
         trace = None
         if r == z3.sat:
@@ -231,7 +248,7 @@ class Model:
         out = []
         for t, ch in enumerate(self.sched):
             i = m.eval(ch, model_completion=True).as_long()
-            if i < 0:
+            if i == NONE:
                 continue
             pc = m.eval(self.states[t]["pc%d" % i], model_completion=True).as_long()
             node = self.nodes[pc]
